@@ -12,7 +12,7 @@ InstSet == CASE InstSetName = "flat" -> Flat [] InstSetName = "collecting" -> Co
 TailSet == IF TailSetName = "cuts" THEN {"Take1", "Throw1"} ELSE {"none"}
 
 NoSync == {[j |-> 0, k |-> "C"]}
-SyncSet == IF SyncSetName = "ends" THEN {[j |-> x, k |-> kk] : x \in 1..MaxInner, kk \in {"C", "E"}} ELSE NoSync
+SyncSet == IF SyncSetName = "ends" THEN {[j |-> x, k |-> kk] : x \in 1..MaxInner, kk \in {"C", "E", "U"}} ELSE NoSync
 
 VARIABLES m, tail, sync, synced, phase, closed, unsub, log, h, sent, ost, octx, intro, ist, nsub, last, q, blk
 M == INSTANCE HO WITH HInsts <- InstSet, Tails <- TailSet, SyncInner <- SyncSet
